@@ -1168,6 +1168,18 @@ class Interp:
         return out
 
     def iterate(self, it):
+        from .models import SetList
+
+        if isinstance(it, (set, frozenset, SetList)) and len(it) >= 2:
+            # the iteration order of a set is unspecified (string hashes are randomised per process): every order is a path
+            import itertools
+
+            items = list(it)
+            if len(items) > 4:
+                raise Unsupported("iteration over a set with more than 4 elements")
+            perms = list(itertools.permutations(range(len(items))))
+            k = self.ctx.choose([True] * len(perms), "set-iteration-order")
+            return [items[i] for i in perms[k]]
         if isinstance(it, (list, tuple, set, frozenset)):
             return list(it)
         if isinstance(it, dict):
